@@ -39,6 +39,9 @@ type typeDef struct {
 	Name    string
 	Mk      func(state int) any // builds the instance in initial state 0..NStates-1 (outside the scheduler)
 	NStates int                 // 0 means 3
+	// BigState (when > 0): the index of an initial state that is expensive to build (a thousand elements); the
+	// enumeration only uses it for the two-thread one-call programs, the random programs use it like any other.
+	BigState int
 	Ops     []opDef
 	Observe func(inst any) string // follow-up observation after all threads finished
 	// SafetyOnly: the operations include multi-element calls for which the statement of C02 promises
@@ -67,9 +70,19 @@ func heapType() typeDef {
 				h.Push(1)
 			case 2:
 				h.Push(2, 1, 3)
+			case 3:
+				// grown large, then drained to just above a quarter of its capacity (where an implementation might
+				// release memory): 1100 pushes (capacity 1280), popped down to 321 elements
+				for k := 0; k < 1100; k++ {
+					h.Push(k%3 + 1)
+				}
+				for h.Size() > 321 {
+					h.Pop()
+				}
 			}
 			return h
 		},
+		NStates: 4, BigState: 3,
 		Ops: []opDef{
 			{"Push(1)", func(i any) string { i.(H).Push(1); return "" }},
 			{"Push(2)", func(i any) string { i.(H).Push(2); return "" }},
@@ -124,9 +137,18 @@ func queueType() typeDef {
 			case 2:
 				q.Enqueue(2)
 				q.Enqueue(1)
+			case 3:
+				// grown large, then drained to just above a quarter of its capacity
+				for k := 0; k < 1100; k++ {
+					q.Enqueue(k%3 + 1)
+				}
+				for q.Size() > 321 {
+					q.Dequeue()
+				}
 			}
 			return q
 		},
+		NStates: 4, BigState: 3,
 		Ops: queueOps(deq),
 		Observe: func(i any) string {
 			q := i.(*queue.Queue[int])
@@ -207,9 +229,18 @@ func stackType() typeDef {
 			case 2:
 				x.Push(2)
 				x.Push(1)
+			case 3:
+				// grown large, then drained to just above a quarter of its capacity
+				for k := 0; k < 1100; k++ {
+					x.Push(k%3 + 1)
+				}
+				for x.Size() > 321 {
+					x.Pop()
+				}
 			}
 			return x
 		},
+		NStates: 4, BigState: 3,
 		Ops: stackOps(), Observe: stackObserve,
 	}
 }
@@ -891,6 +922,9 @@ func bodyFor(mk func(thorough bool) plan) func(t *testing.T, x *pbt.Ctx) {
 				}
 				for pi, th := range progs {
 					for state := 0; state < td.states(); state++ {
+						if td.BigState > 0 && state == td.BigState && shape != "2x1" {
+							continue
+						}
 						idx++
 						if idx%cfg.NShards != cfg.Shard {
 							continue
@@ -1027,7 +1061,7 @@ func TestProp(t *testing.T) {
 	pbt.Run(t, "C02",
 		&pbt.Custom{
 			Name: "schedules",
-			Rule: "for each of heap, queue, lqueue, stack, lstack, bstree, trie, cache: every program of 2 threads x 1 call, 3 threads x 1 call, (2 calls || 1 call) and 2 threads x 2 calls (quick tier: a seeded 1-in-4 sample of the 2x2 programs) over 6-9 single-element operations (cache: also DeleteExpired), from 3 initial states (empty or drained / 1 / 2-3 elements; cache: a 4th with an expired, unpurged entry); " +
+			Rule: "for each of heap, queue, lqueue, stack, lstack, bstree, trie, cache: every program of 2 threads x 1 call, 3 threads x 1 call, (2 calls || 1 call) and 2 threads x 2 calls (quick tier: a seeded 1-in-4 sample of the 2x2 programs) over 6-9 single-element operations (cache: also DeleteExpired), from 3 initial states (empty or drained / 1 / 2-3 elements; cache: a 4th with an expired, unpurged entry; heap, queue, stack: a 4th grown to 1100 elements and drained to 321, just above a quarter of its capacity); " +
 				"for each program EVERY schedule at lock granularity (scheduling points: arrival at Lock, acquisition of a Lock that was busy on arrival, acquisition of RLock, every sync/atomic operation, and - except for the 2x2 programs of the quick tier - the instant after every Unlock/RUnlock; a call counts as started at its first scheduling point; writer preference modelled) is executed by the controlled scheduler (stateless depth-first enumeration), capped per program (then continued with uniformly sampled schedules). " +
 				"Oracle: differential against one-at-a-time runs of the same build: the vector (result of every call, follow-up observation: size/count, drain or lookups) must equal that of some sequential order that respects which calls returned before others were started; a deadlock or >4000 steps is a violation. " +
 				"evaluations = schedules executed; non-trivial = a schedule in which two calls were in progress at the same time; distinct = distinct (program, outcome vector) pairs among those.",
